@@ -80,10 +80,11 @@ def run(ctx: fw.Ctx, mod) -> int:
 
     # 5. classify failures against known findings
     open_known, _fixed = fw.load_known(pid)
+    known_cases = fw.load_known_cases(pid)
     reproduced: dict[str, int] = {}
     fresh = []
     for f in ctx.failures:
-        hit = next((k for k in open_known if fw.key_matches(k["key"], f["key"])), None)
+        hit = fw.known_hit(open_known, known_cases, f)
         if hit is not None:
             reproduced[hit["id"]] = reproduced.get(hit["id"], 0) + 1
         else:
@@ -94,7 +95,7 @@ def run(ctx: fw.Ctx, mod) -> int:
         before = len(ctx.failures)
         mod.search(ctx)
         for f in ctx.failures[before:]:
-            hit = next((k for k in open_known if fw.key_matches(k["key"], f["key"])), None)
+            hit = fw.known_hit(open_known, known_cases, f)
             if hit is not None:
                 reproduced[hit["id"]] = reproduced.get(hit["id"], 0) + 1
             else:
